@@ -63,6 +63,8 @@ pub enum StreamR {
     Uniform(u64),
     /// flip one bit of the valid image
     FlipBit(u16),
+    /// point types: the image of the negated point (a different valid image sharing x)
+    NegateY,
 }
 
 #[derive(Clone, Debug, Serialize, Deserialize, PartialEq, Eq, Hash)]
@@ -96,6 +98,7 @@ fn ser_case_strategy() -> BoxedStrategy<SerCase> {
         5 => super::c04::dec_case_strategy().prop_map(StreamR::PointBytes),
         2 => any::<u64>().prop_map(StreamR::Uniform),
         2 => any::<u16>().prop_map(StreamR::FlipBit),
+        1 => Just(StreamR::NegateY),
     ];
     let chunks = prop_oneof![
         3 => Just(vec![]),
@@ -172,13 +175,20 @@ pub fn expect_for(ty: &Ty, compressed: bool, stream: &[u8]) -> Expect {
 /// addition the value is compared directly through the accessors.
 pub fn run_read<T: SerDes>(ty: &Ty, compressed: bool, stream: &[u8], chunks: &[u8], value_image: impl Fn(&T) -> Result<Vec<u8>, String>, info: &mut Info) -> Result<(), String> {
     let mut rd = ChunkReader { data: stream, pos: 0, chunks, i: 0 };
-    let res = cr("deserialize", || T::deserialize(&mut rd, compressed))?;
-    let consumed = rd.pos;
+    run_read_at::<T>(ty, compressed, &mut rd, value_image, info).map(|_| ())
+}
+
+/// one read from the reader's current position; Ok(true) = a value was due and delivered
+pub fn run_read_at<T: SerDes>(ty: &Ty, compressed: bool, rd: &mut ChunkReader, value_image: impl Fn(&T) -> Result<Vec<u8>, String>, info: &mut Info) -> Result<bool, String> {
+    let start = rd.pos;
+    let stream = &rd.data[start..];
+    let res = cr("deserialize", || T::deserialize(&mut *rd, compressed))?;
+    let consumed = rd.pos - start;
     match (expect_for(ty, compressed, stream), res) {
         (Expect::Error(why), Ok(_)) => Err(format!("{:?} deserialize(compressed={}) returned a value for a stream that is invalid ({}): {}", ty, compressed, why, hex(&stream[..std::cmp::min(stream.len(), 200)]))),
         (Expect::Error(why), Err(_)) => {
             info.class(format!("error:{}", why));
-            Ok(())
+            Ok(false)
         }
         (Expect::Value { .. }, Err(e)) => Err(format!("{:?} deserialize(compressed={}) failed ({}) on a valid stream {}", ty, compressed, e, hex(&stream[..std::cmp::min(stream.len(), 200)]))),
         (Expect::Value { consumed: want, image }, Ok(v)) => {
@@ -190,12 +200,18 @@ pub fn run_read<T: SerDes>(ty: &Ty, compressed: bool, stream: &[u8], chunks: &[u
                 return Err(format!("{:?} deserialize(compressed={}) returned a value whose canonical image is {} but the stream held {}", ty, compressed, hex(&got_image), hex(&image)));
             }
             info.class("value");
-            Ok(())
+            Ok(true)
         }
     }
 }
 
 fn check_ser(c: &SerCase, info: &mut Info) -> Result<(), String> {
+    let (stream, read_flag) = prepare(c, info)?;
+    read_one(&c.ty, read_flag, &mut ChunkReader { data: &stream, pos: 0, chunks: &c.chunks, i: 0 }, info).map(|_| ())
+}
+
+/// steps 1 and 2: serialize the value (compared with the model image) and build the stream to read
+fn prepare(c: &SerCase, info: &mut Info) -> Result<(Vec<u8>, bool), String> {
     info.class(format!("type:{:?}", c.ty));
     info.class(format!("chunks:{}", if c.chunks.is_empty() { "whole" } else if c.chunks == [1] { "byte-at-a-time" } else { "generated" }));
     // 1. the value, its model image, and what the crate writes
@@ -338,6 +354,19 @@ fn check_ser(c: &SerCase, info: &mut Info) -> Result<(), String> {
             s[i / 8] ^= 0x80 >> (i % 8);
             s
         }
+        StreamR::NegateY => match c.ty {
+            Ty::Fr | Ty::Fq12 => model_image.clone(),
+            _ => {
+                let neg = if g1 {
+                    let pm = base_point::<G1m>(&c.point).unwrap();
+                    encode(&refmodel::curve::e1().neg(&pm), c.compressed)
+                } else {
+                    let pm = base_point::<G2m>(&c.point).unwrap();
+                    encode(&refmodel::curve::e2().neg(&pm), c.compressed)
+                };
+                neg
+            }
+        },
     };
     info.class(format!("stream:{}", match &c.stream {
         StreamR::Valid => "valid",
@@ -348,16 +377,20 @@ fn check_ser(c: &SerCase, info: &mut Info) -> Result<(), String> {
         StreamR::PointBytes(_) => "generated-point-bytes",
         StreamR::Uniform(_) => "uniform",
         StreamR::FlipBit(_) => "bit-flip",
+        StreamR::NegateY => "image-of-the-negated-point",
     }));
     info.nt_if(stream != model_image);
-    // 3. read it back
-    match c.ty {
-        Ty::Fr => run_read::<crt::Fr>(&c.ty, read_flag, &stream, &c.chunks, |v| Ok(be_fixed(&fr_m(v), 32)), info),
-        Ty::Fq12 => run_read::<crt::Fq12>(
-            &c.ty,
+    Ok((stream, read_flag))
+}
+
+/// step 3: read one value of type `ty` from the reader's current position
+fn read_one(ty: &Ty, read_flag: bool, rd: &mut ChunkReader, info: &mut Info) -> Result<bool, String> {
+    match ty {
+        Ty::Fr => run_read_at::<crt::Fr>(ty, read_flag, rd, |v| Ok(be_fixed(&fr_m(v), 32)), info),
+        Ty::Fq12 => run_read_at::<crt::Fq12>(
+            ty,
             read_flag,
-            &stream,
-            &c.chunks,
+            rd,
             |v| {
                 let t = Fq12::to_tower(&fq12_m(v));
                 let mut img = vec![];
@@ -371,21 +404,119 @@ fn check_ser(c: &SerCase, info: &mut Info) -> Result<(), String> {
             },
             info,
         ),
-        Ty::G1 => run_read::<crt::G1>(&c.ty, read_flag, &stream, &c.chunks, |v| Ok(encode(&proj_m::<G1m>(v), read_flag)), info),
-        Ty::G1Affine => run_read::<crt::G1Affine>(&c.ty, read_flag, &stream, &c.chunks, |v| Ok(encode(&aff_m::<G1m>(v), read_flag)), info),
-        Ty::G2 => run_read::<crt::G2>(&c.ty, read_flag, &stream, &c.chunks, |v| Ok(encode(&proj_m::<G2m>(v), read_flag)), info),
-        Ty::G2Affine => run_read::<crt::G2Affine>(&c.ty, read_flag, &stream, &c.chunks, |v| Ok(encode(&aff_m::<G2m>(v), read_flag)), info),
-    }?;
+        Ty::G1 => run_read_at::<crt::G1>(ty, read_flag, rd, |v| Ok(encode(&proj_m::<G1m>(v), read_flag)), info),
+        Ty::G1Affine => run_read_at::<crt::G1Affine>(ty, read_flag, rd, |v| Ok(encode(&aff_m::<G1m>(v), read_flag)), info),
+        Ty::G2 => run_read_at::<crt::G2>(ty, read_flag, rd, |v| Ok(encode(&proj_m::<G2m>(v), read_flag)), info),
+        Ty::G2Affine => run_read_at::<crt::G2Affine>(ty, read_flag, rd, |v| Ok(encode(&aff_m::<G2m>(v), read_flag)), info),
+    }
+}
+
+fn stream_strategy() -> BoxedStrategy<StreamR> {
+    prop_oneof![
+        4 => Just(StreamR::Valid),
+        2 => any::<u16>().prop_map(StreamR::Prefix),
+        1 => proptest::collection::vec(any::<u8>(), 1..40).prop_map(StreamR::Trailing),
+        2 => Just(StreamR::WrongFlag),
+        3 => (any::<u8>(), super::c04::coordval_strategy()).prop_map(|(w, v)| StreamR::Component(w, v)),
+        1 => any::<u64>().prop_map(StreamR::Uniform),
+        6 => any::<u16>().prop_map(StreamR::FlipBit),
+        4 => Just(StreamR::NegateY),
+    ]
+    .boxed()
+}
+
+/// related streams back to back: the SAME value's image and variants of it (bit flips anywhere, one
+/// component replaced, the negated point, opposite flag, prefixes), each read with a fresh reader and
+/// each decided by the model from its own bytes alone
+#[derive(Clone, Debug, Serialize, Deserialize, PartialEq, Eq, Hash)]
+pub struct SerSeq {
+    pub base: SerCase,
+    pub steps: Vec<StreamR>,
+}
+
+fn ser_seq_strategy() -> BoxedStrategy<SerSeq> {
+    (ser_case_strategy(), proptest::collection::vec(stream_strategy(), 2..6)).prop_map(|(base, steps)| SerSeq { base, steps }).boxed()
+}
+
+fn check_ser_seq(c: &SerSeq, info: &mut Info) -> Result<(), String> {
+    info.class(format!("type:{:?}", c.base.ty));
+    let mut prev_valid = false;
+    for (i, st) in c.steps.iter().enumerate() {
+        let mut case = c.base.clone();
+        case.stream = st.clone();
+        let mut tmp = Info::default();
+        check_ser(&case, &mut tmp).map_err(|m| format!("read #{} of a sequence of related streams ({:?}): {}", i, st, m))?;
+        let valid = matches!(st, StreamR::Valid | StreamR::NegateY | StreamR::Trailing(_));
+        if prev_valid && !valid {
+            info.class("invalid-variant-right-after-valid-image");
+        }
+        if !prev_valid && valid && i > 0 {
+            info.class("valid-image-right-after-invalid-variant");
+        }
+        prev_valid = valid;
+    }
+    info.nt();
+    Ok(())
+}
+
+/// several values of mixed types written one after the other and read back through ONE reader
+#[derive(Clone, Debug, Serialize, Deserialize, PartialEq, Eq, Hash)]
+pub struct MultiCase {
+    pub items: Vec<SerCase>,
+    pub chunks: Vec<u8>,
+}
+
+fn multi_strategy() -> BoxedStrategy<MultiCase> {
+    let item = ser_case_strategy().prop_map(|mut c| {
+        // mostly intact items so that the stream continues past the first one
+        if !matches!(c.stream, StreamR::Valid | StreamR::FlipBit(_) | StreamR::Prefix(_)) {
+            c.stream = StreamR::Valid;
+        }
+        c
+    });
+    let chunks = prop_oneof![
+        2 => Just(vec![]),
+        2 => Just(vec![1u8]),
+        4 => proptest::collection::vec(1u8..=200, 1..6),
+    ];
+    (proptest::collection::vec(item, 2..6), chunks).prop_map(|(items, chunks)| MultiCase { items, chunks }).boxed()
+}
+
+fn check_multi(c: &MultiCase, info: &mut Info) -> Result<(), String> {
+    let mut data = vec![];
+    let mut flags = vec![];
+    for it in &c.items {
+        let mut tmp = Info::default();
+        let (s, f) = prepare(it, &mut tmp)?;
+        data.extend_from_slice(&s);
+        flags.push(f);
+    }
+    let mut rd = ChunkReader { data: &data, pos: 0, chunks: &c.chunks, i: 0 };
+    let mut delivered = 0;
+    for (i, it) in c.items.iter().enumerate() {
+        let mut tmp = Info::default();
+        let ok = read_one(&it.ty, flags[i], &mut rd, &mut tmp).map_err(|m| format!("item #{} ({:?}) of a {}-item stream read through one reader: {}", i, it.ty, c.items.len(), m))?;
+        if !ok {
+            // after a due error the position is unconstrained: stop
+            info.class("stream-ends-in-due-error");
+            break;
+        }
+        delivered += 1;
+    }
+    info.class(format!("items-delivered={}", delivered));
+    info.nt_if(delivered >= 2);
     Ok(())
 }
 
 pub fn def() -> PropDef {
     PropDef {
         id: "C19",
-        rule: "values of Fr, Fq12, G1, G2, G1Affine, G2Affine (subgroup points of every class incl. identity, walks P+[k]G, projective values in generated representatives) x both flags: bytes written compared with the model image (32 / 576 / 48|96 / 96|192 bytes); streams read back through a chunking, counting reader (whole / byte-at-a-time / generated chunk sizes): valid image, every kind of proper prefix, trailing data, opposite flag, one field component replaced by p+k / p-1-k / 2^381 / all-ones / uniform, arbitrary point bytes from the C04 generator (every rejection class), uniform bytes, single bit flips. Oracle: model decides from the bytes alone whether a value is due (then: Ok, exact consumption, value's canonical image equals the consumed bytes) or an error is due (then: Err, never a value or a panic). Non-trivial = stream differs from the valid image; distinct = distinct cases",
+        rule: "values of Fr, Fq12, G1, G2, G1Affine, G2Affine (subgroup points of every class incl. identity, walks P+[k]G, projective values in generated representatives) x both flags: bytes written compared with the model image (32 / 576 / 48|96 / 96|192 bytes); streams read back through a chunking, counting reader (whole / byte-at-a-time / generated chunk sizes): valid image, every kind of proper prefix, trailing data, opposite flag, one field component replaced by p+k / p-1-k / 2^381 / all-ones / uniform, arbitrary point bytes from the C04 generator (every rejection class), uniform bytes, single bit flips, the negated point's image; sequences of related streams back to back and multi-item streams through one reader. Oracle: model decides from the bytes alone whether a value is due (then: Ok, exact consumption, value's canonical image equals the consumed bytes) or an error is due (then: Err, never a value or a panic). Non-trivial = stream differs from the valid image; distinct = distinct cases",
         needs_pairing: false,
         subs: vec![
             Box::new(Sub { name: "serdes", rule: "serialize bytes == model image; deserialize outcome / consumption / value decided by the model from the bytes", quick: 24_000, thorough: 250_000, strategy: || boxed(ser_case_strategy()), check: check_ser }),
+            Box::new(Sub { name: "related-streams", rule: "2..5 reads back to back of variants of ONE value's image (bit flips, replaced component, negated point, opposite flag, prefixes, the image again), each decided by the model from its own bytes (no dependence on earlier reads)", quick: 4_000, thorough: 50_000, strategy: || boxed(ser_seq_strategy()), check: check_ser_seq }),
+            Box::new(Sub { name: "multi-item-streams", rule: "2..5 values of mixed types and flags concatenated and read back through one chunking reader: every item delivered with exact consumption until the first due error", quick: 4_000, thorough: 50_000, strategy: || boxed(multi_strategy()), check: check_multi }),
             super::corpus_sub_serdes(),
         ],
         assumptions: {
